@@ -1,0 +1,20 @@
+//go:build verif
+
+package driver
+
+import (
+	"context"
+
+	"github.com/NethermindEth/juno/consensus/types"
+)
+
+// VerifInjectTimeout hands a timeout to the driver's loop exactly as an expired timer does
+// (send on the unexported timeoutsCh). Add-only hook for /verif (C13); not built without the tag.
+func (d *Driver[V, H, A]) VerifInjectTimeout(ctx context.Context, tm types.Timeout) bool {
+	select {
+	case <-ctx.Done():
+		return false
+	case d.timeoutsCh <- tm:
+		return true
+	}
+}
